@@ -145,7 +145,7 @@ def ml_cst_to_value(expr: cst.BaseExpression) -> object:  # noqa: C901
     if isinstance(expr, cst.Tuple):
         return tuple(ml_cst_to_value(element.value) for element in expr.elements)
     if isinstance(expr, cst.Integer):
-        return int(expr.value)
+        return int(expr.value, 0)
     if isinstance(expr, cst.Float):
         return float(expr.value)
     if isinstance(expr, cst.Imaginary):
